@@ -32,7 +32,7 @@ def make_bptk(n, variant, values):
             self.agent_type = "A"
             self.state = plan_state(self.id, 0.0, variant)
             self.set_property("p", {"type": "Double", "value": 0.0})
-            self.properties["p"]["value"] = values("p%d" % self.id)
+            self.properties["p"]["value"] = values("%s_p%d" % (self.model.name, self.id))
             self.set_property("label", {"type": "String", "value": "x"})
 
         def act(self, time, round_no, step_no):
@@ -43,12 +43,20 @@ def make_bptk(n, variant, values):
         def instantiate_model(self):
             self.register_agent_factory("A", lambda agent_id, model, properties: A(agent_id, model, properties, "A"))
 
-    m = M(name="abm")
+    from BPTK_Py import DataCollector, SimultaneousScheduler
+    # registered the documented way: a model instance that brings its own scheduler and data collector
+    m = M(name="abm", scheduler=SimultaneousScheduler(), data_collector=DataCollector())
     m.instantiate_model()
     b = BPTK_Py.bptk()
     b.register_scenario_manager({"abm": {"type": "abm", "model": m, "scenarios": {
-        "s": {"runspecs": {"starttime": 0, "stoptime": 2, "dt": 1}, "properties": {}, "agents": [{"name": "A", "count": n}]}}}})
+        "s": {"runspecs": {"starttime": 0, "stoptime": 2, "dt": 1}, "properties": {}, "agents": [{"name": "A", "count": n}]},
+        "s2": {"runspecs": {"starttime": 0, "stoptime": 2, "dt": 1}, "properties": {}, "agents": [{"name": "A", "count": n + 1}]}}}})
     return b
+
+
+def scenarios_of(n):
+    """two scenarios of ONE manager built from one model instance, with different populations"""
+    return [("s", n), ("s2", n + 1)]
 
 
 def expected_members(n, variant, t, state):
@@ -58,20 +66,20 @@ def expected_members(n, variant, t, state):
 def run(n, variant, fmt, values):
     b = make_bptk(n, variant, values)
     states = ["active", "idle"] if variant != 2 else ["active"]
-    res = b.run_scenarios(scenarios=["s"], scenario_managers=["abm"], agents=["A"], agent_states=states,
+    res = b.run_scenarios(scenarios=["s", "s2"], scenario_managers=["abm"], agents=["A"], agent_states=states,
                           agent_properties=["p"], agent_property_types=AGG, return_format=fmt)
-    cnt = make_bptk(n, variant, values).run_scenarios(scenarios=["s"], scenario_managers=["abm"], agents=["A"], agent_states=states,
+    cnt = make_bptk(n, variant, values).run_scenarios(scenarios=["s", "s2"], scenario_managers=["abm"], agents=["A"], agent_states=states,
                                                        return_format=fmt)
     return res, cnt, states
 
 
-def cell(res, fmt, state, kind, t):
+def cell(res, fmt, state, kind, t, sc="s"):
     if fmt == "df":
-        col = "abm_s_A_%s_p_%s" % (state, kind)
+        col = "abm_%s_A_%s_p_%s" % (sc, state, kind)
         return res[col][t]
     if fmt == "json":
         res = scen.loads(res) if isinstance(res, str) else res
-    d = res["abm"]["s"]["agents"]["A"][state]["properties"]["p"][kind]
+    d = res["abm"][sc]["agents"]["A"][state]["properties"]["p"][kind]
     if hasattr(d, "to_dict"):
         d = d.to_dict()
     for k, v in d.items():
@@ -80,12 +88,12 @@ def cell(res, fmt, state, kind, t):
     raise KeyError(t)
 
 
-def count_cell(cnt, fmt, state, t):
+def count_cell(cnt, fmt, state, t, sc="s"):
     if fmt == "df":
-        return cnt["abm_s_A_%s" % state][t]
+        return cnt["abm_%s_A_%s" % (sc, state)][t]
     if fmt == "json":
         cnt = scen.loads(cnt) if isinstance(cnt, str) else cnt
-    d = cnt["abm"]["s"]["agents"]["A"][state]
+    d = cnt["abm"][sc]["agents"]["A"][state]
     if hasattr(d, "to_dict"):
         d = d.to_dict()
     for k, v in d.items():
@@ -112,28 +120,29 @@ def check(n, variant, fmt, timeout_s, spec_cell):
         if p.out[0] == "exc":
             return "run_scenarios(agents=..., return_format=%r) raised %r" % (fmt, p.out[1]), {}
         res, cnt, states = p.out[1], p.out[2], p.out[3]
-        for t in (0.0, 1.0, 2.0):
+        for sc, ns in scenarios_of(n):
+          for t in (0.0, 1.0, 2.0):
             for st in states:
-                members = expected_members(n, variant, t, st)
+                members = expected_members(ns, variant, t, st)
                 try:
-                    c = count_cell(cnt, fmt, st, t)
+                    c = count_cell(cnt, fmt, st, t, sc)
                 except Exception as e:
-                    return "%s: count of state %s at t=%s is missing (%r)" % (fmt, st, t, e), {}
+                    return "%s: scenario %s: count of state %s at t=%s is missing (%r)" % (fmt, sc, st, t, e), {}
                 if S.is_sym(c) or float(c) != float(len(members)):
-                    return "%s: count of state %s at t=%s is %r, expected %d" % (fmt, st, t, c, len(members)), {}
+                    return "%s: scenario %s: count of state %s at t=%s is %r, expected %d" % (fmt, sc, st, t, c, len(members)), {}
                 for kind in AGG:
                     try:
-                        v = cell(res, fmt, st, kind, t)
+                        v = cell(res, fmt, st, kind, t, sc)
                     except Exception as e:
-                        return "%s: %s_p_%s at t=%s is missing (%r)" % (fmt, st, kind, t, e), {}
+                        return "%s: scenario %s: %s_p_%s at t=%s is missing (%r)" % (fmt, sc, st, kind, t, e), {}
                     if not members:
                         if S.is_sym(v) or float(v) != 0.0:
-                            return "%s: %s_p_%s at t=%s is %r although the state is empty" % (fmt, st, kind, t, v), {}
+                            return "%s: scenario %s: %s_p_%s at t=%s is %r although the state is empty" % (fmt, sc, st, kind, t, v), {}
                         continue
-                    f = spec_cell(v, [S.v("p%d" % i) for i in members], len(members), kind)
+                    f = spec_cell(v, [S.v("%s_p%d" % (sc, i)) for i in members], len(members), kind)
                     r = solve.prove(f, p.pc, timeout_s=timeout_s)
                     if r.status == "violated":
-                        return "%s: %s_p_%s at t=%s is not the %s over the agents %s" % (fmt, st, kind, t, kind, members), solve.complete_model(r.model, f)
+                        return "%s: scenario %s: %s_p_%s at t=%s is not the %s over the agents %s of that scenario" % (fmt, sc, st, kind, t, kind, members), solve.complete_model(r.model, f)
                     if r.status == "unknown":
                         return "UNKNOWN " + r.detail, None
     return None
@@ -146,28 +155,30 @@ def replay(case):
     def values(name):
         if name in env:
             return float(env[name])
-        return [1.0, -2.5, 0.0, 3.0, -1.0][int(name[1:]) % 5]
+        sc, _, i = name.rpartition("_p")
+        return [1.0, -2.5, 0.0, 3.0, -1.0][int(i) % 5] + (10.0 if sc == "s2" else 0.0)
     try:
         res, cnt, states = run(n, variant, fmt, values)
     except Exception as e:
         return True, "run_scenarios for agents raised %r" % (e,)
-    for t in (0.0, 1.0, 2.0):
+    for sc, ns in scenarios_of(n):
+      for t in (0.0, 1.0, 2.0):
         for st in states:
-            members = expected_members(n, variant, t, st)
-            vals = [values("p%d" % i) for i in members]
+            members = expected_members(ns, variant, t, st)
+            vals = [values("%s_p%d" % (sc, i)) for i in members]
             try:
-                c = float(count_cell(cnt, fmt, st, t))
+                c = float(count_cell(cnt, fmt, st, t, sc))
             except Exception as e:
-                return True, "%s: count of %s at t=%s missing (%r)" % (fmt, st, t, e)
+                return True, "%s: scenario %s: count of %s at t=%s missing (%r)" % (fmt, sc, st, t, e)
             if c != len(members):
-                return True, "%s: count of %s at t=%s is %r, expected %d" % (fmt, st, t, c, len(members))
+                return True, "%s: scenario %s: count of %s at t=%s is %r, expected %d" % (fmt, sc, st, t, c, len(members))
             want = {"total": sum(vals), "max": max(vals) if vals else 0.0, "min": min(vals) if vals else 0.0,
                     "mean": (sum(vals) / len(vals)) if vals else 0.0}
             for kind in AGG:
                 try:
-                    got = float(cell(res, fmt, st, kind, t))
+                    got = float(cell(res, fmt, st, kind, t, sc))
                 except Exception as e:
-                    return True, "%s: %s_p_%s at t=%s missing (%r)" % (fmt, st, kind, t, e)
+                    return True, "%s: scenario %s: %s_p_%s at t=%s missing (%r)" % (fmt, sc, st, kind, t, e)
                 if abs(got - want[kind]) > 1e-9 * (1 + abs(want[kind])):
-                    return True, "%s: %s_p_%s at t=%s is %r, expected %r (values %s)" % (fmt, st, kind, t, got, want[kind], vals)
+                    return True, "%s: scenario %s: %s_p_%s at t=%s is %r, expected %r (values %s)" % (fmt, sc, st, kind, t, got, want[kind], vals)
     return False, "run_scenarios(%s) for %d agents, variant %d: aggregates correct" % (fmt, n, variant)
